@@ -74,6 +74,15 @@ def histogram(line):
         keys.append("bg=" + f.get("bg", "?").split(":")[0])
         keys.append("bg2=" + f.get("bg2", "?").split(":")[0])
         keys.append("pseudo=" + ("scalar" if f.get("ps", "").startswith("s:") else "per-symbol"))
+        # rows outside the domain of the frequency clause (driver: `OK skipped=freq-row:...`, PwmCheck2.freq_row_skip_reason)
+        try:
+            pb = [int(x) for x in f.get("ps", "")[2:].split(",") if x]
+            if any((b & 0x7F800000) == 0x7F800000 for b in pb):
+                keys.append("freq-clause-not-judged:pseudocount-nan-or-inf")
+            elif any((b & 0x80000000) and (b & 0x7FFFFFFF) for b in pb):
+                keys.append("freq-clause-not-judged:pseudocount-negative")
+        except ValueError:
+            pass
         b = f.get("base")
         names = {"1073741824": "2", "1092616192": "10", "1076754516": "e", "1080033280": "3.5",
                  "1075838976": "2.5", "1093140480": "10.5", "1073741825": "2+ulp", "1073741823": "2-ulp",
@@ -98,7 +107,7 @@ SPEC = dict(
     group="pwm",
     props_file="C09.v",
     module="LMPwm.C09",
-    more_props=[("C09Stat.v", "LMPwm.C09Stat")],
+    more_props=[("C09Stat.v", "LMPwm.C09Stat"), ("C09Log.v", "LMPwm.C09Log")],
     extra_obligations={"thorough": _e2e_stat_obligations},
     extra_obligations_name="coq/e2e/E2EStat.v: composition of C09 (conversion chain), C11 / C12 / C13, C10, C14 and the "
                            "scanning pipeline of E2E.v",
